@@ -1295,15 +1295,16 @@ impl GRLParser {
             return self.parse_array_literal(trimmed);
         }
 
-        // String literal
+        // String literal (test the quotes first: slicing off the first and last byte is only
+        // valid once we know they are one-byte quote characters)
         if trimmed.len() >= 2 {
-            let unquoted = &trimmed[1..trimmed.len() - 1];
-            if (trimmed.starts_with('"') && trimmed.ends_with('"') && !unquoted.contains('"'))
-                || (trimmed.starts_with('\'')
-                    && trimmed.ends_with('\'')
-                    && !unquoted.contains('\''))
-            {
-                return Ok(Value::String(unquoted.to_string()));
+            for quote in ['"', '\''] {
+                if trimmed.starts_with(quote) && trimmed.ends_with(quote) {
+                    let unquoted = &trimmed[1..trimmed.len() - 1];
+                    if !unquoted.contains(quote) {
+                        return Ok(Value::String(unquoted.to_string()));
+                    }
+                }
             }
         }
 
